@@ -171,6 +171,15 @@ impl Pattern {
         self.prefix_regex.is_match(path)
     }
 
+    /// Returns true if this pattern ends with an unescaped `.*` (e.g. a glob ending with `**`).
+    /// If such a pattern matches a prefix of a path, it matches every extension of that path too.
+    pub fn matches_any_suffix(&self) -> bool {
+        match self.src.strip_suffix(".*") {
+            Some(head) => head.chars().rev().take_while(|c| *c == '\\').count() % 2 == 0,
+            None => false,
+        }
+    }
+
     /// Returns true if this pattern fully matches given file path
     pub fn matches_path(&self, path: &Path) -> bool {
         self.anchored_regex
